@@ -2,15 +2,18 @@ package c09
 
 import (
 	"bytes"
+	"crypto/aes"
 	"io"
 
 	"github.com/Tnze/go-mc/nbt"
 	mcnet "github.com/Tnze/go-mc/net"
+	"github.com/Tnze/go-mc/net/CFB8"
 	pk "github.com/Tnze/go-mc/net/packet"
 
 	"verifsim/gen"
 	"verifsim/harness"
 	"verifsim/kernel"
+	"verifsim/oracle/cfb8"
 	"verifsim/oracle/frame"
 	"verifsim/oracle/nbtgen"
 	"verifsim/simnet"
@@ -18,6 +21,7 @@ import (
 )
 
 var pLinkCutInsideFrame = simrt.NewProbe("link.cut.inside.a.frame")
+var pLinkCipher = simrt.NewProbe("link.cipher.installed.part-way")
 var pLinkCutAtBoundary = simrt.NewProbe("link.cut.exactly.at.frame.boundary")
 
 // scenarioLink: a peer task streams frames (or RCON packets, or NBT
@@ -56,8 +60,30 @@ func scenarioLink(c *harness.Ctx) {
 			u.raw = nbtgen.Doc(nbtgen.Gen(tp, 2), "", true)
 		}
 		units = append(units, u)
-		stream = append(stream, u.raw...)
 	}
+	// frames: the reader may install a cipher part-way (as login does after the
+	// encryption request); everything after that frame is encrypted on the wire.
+	// The peer pipelines, so encrypted bytes can arrive in the same segment as
+	// the last plaintext frame.
+	encFrom := -1
+	var key, iv []byte
+	if kind == 0 && tp.Bool(1, 3) {
+		encFrom = tp.Choose(nUnits + 1)
+		key, iv = tp.Bytes(16), tp.Bytes(16)
+		pLinkCipher.Hit()
+	}
+	var enc *cfb8.Ref
+	for i, u := range units {
+		if i == encFrom {
+			enc = cfb8.New(key, iv, false)
+		}
+		if enc != nil {
+			stream = append(stream, enc.Apply(u.raw)...)
+		} else {
+			stream = append(stream, u.raw...)
+		}
+	}
+	c.Config["cipher_from_unit"] = encFrom
 	c.Config["kind"] = []string{"frames", "rcon", "nbt"}[kind]
 	c.Config["threshold"] = threshold
 	c.Config["units"] = nUnits
@@ -116,10 +142,12 @@ func scenarioLink(c *harness.Ctx) {
 		out, w := c.World(func(w *kernel.World) {
 			link := simnet.Pipe(w, "l", cfg, simnet.LinkCfg{CutAt: -1, StallAt: -1})
 			w.GoDaemon("peer", func() {
+				off := 0
 				for _, u := range units {
-					if _, err := link.A.Write(u.raw); err != nil {
+					if _, err := link.A.Write(stream[off : off+len(u.raw)]); err != nil {
 						return
 					}
+					off += len(u.raw)
 				}
 				link.A.Close()
 			})
@@ -129,6 +157,10 @@ func scenarioLink(c *harness.Ctx) {
 					conn := mcnet.WrapConn(link.B)
 					conn.SetThreshold(threshold)
 					for i := 0; i <= len(units); i++ {
+						if i == encFrom {
+							blk, _ := aes.NewCipher(key)
+							conn.SetCipher(CFB8.NewCFB8Encrypt(blk, iv), CFB8.NewCFB8Decrypt(blk, iv))
+						}
 						var p pk.Packet
 						if err := conn.ReadPacket(&p); err != nil {
 							firstErr = err
